@@ -132,6 +132,9 @@ func (d *uripostDecoder) readBlock(reader *bufio.Reader, commonHeader http.Heade
 
 	header := commonHeader.Clone()
 	for k, vv := range d.decodedConfigHeaders {
+		if _, ok := header[k]; ok {
+			continue // Headers in ammo file have priority.
+		}
 		for _, v := range vv {
 			header.Set(k, v)
 		}
